@@ -121,6 +121,7 @@ pub fn parse_number_token(s: &str) -> f64 {
 /// `round()` (section 4.4): nearest integer, ties toward positive infinity;
 /// NaN, infinities and zeros are returned unchanged; `[-0.5, 0)` gives `-0`.
 pub fn xpath_round(v: f64) -> f64 {
+    trace::note_round(v);
     if v.is_nan() || v.is_infinite() || v == 0.0 {
         return v;
     }
